@@ -209,17 +209,32 @@ def group_cells(tier):
     @st.composite
     def st_q(draw):
         return {"rot": draw(gens.rotation(strata=("zero", "tiny", "switch", "mid", "nearpi", "pi", "beyond"))),
-                "w": draw(gens.vector(3, scales=(-3, -1, 0, 0, 1, 2)))}
+                "w": draw(gens.vector(3, scales=(-3, -1, 0, 0, 1, 2))),
+                # half turns with a scalar part of exactly 0.0, coordinate axes with exactly zero components
+                "snap": draw(st.booleans()), "axis_aligned": draw(st.integers(0, 5)) == 0, "ax": draw(st.integers(0, 2))}
+
+    def quat_of(case):
+        rot = dict(case["rot"])
+        if case.get("axis_aligned"):
+            a = [0.0, 0.0, 0.0]
+            a[case["ax"]] = 1.0
+            rot["axis"] = a
+        q = np.array(gens.encode_rot(rot, "quat"))
+        if case.get("snap"):
+            q = np.where(np.abs(q) < 1e-12, 0.0, q)
+            q = q / np.linalg.norm(q)
+        return q
 
     def nt(case):
         return case["rot"]["angle"] > 1e-2 and float(np.linalg.norm(case["w"])) > 0
 
     def classify(case):
-        return ["rot:" + case["rot"]["stratum"], "sign:%d" % case["rot"]["sign"], "shadow:%s" % case["rot"]["shadow"]]
+        return ["rot:" + case["rot"]["stratum"], "sign:%d" % case["rot"]["sign"], "shadow:%s" % case["rot"]["shadow"]] + (
+            ["exact-zero-scalar"] if float(quat_of(case)[0]) == 0.0 else [])
 
     for key, side in (("gJl", "left"), ("gJr", "right")):
         def check_q(case, key=key, side=side):
-            q = np.array(gens.encode_rot(case["rot"], "quat"))
+            q = quat_of(case)
             w = np.array(case["w"], float)
             J = gq.fn(key)(q)
             if J.shape != (4, 3):
@@ -263,6 +278,8 @@ def build(tier):
         cells += alg_cells(a, tier)
     cells += group_cells(tier)
     req = {"%s/%s" % (a, k): ["rot:" + s for s in A_STRATA] for a in ALGS for k in ("Jl_fd", "Jr_fd")}
+    req["SO3Quat/kin_left"] = ["exact-zero-scalar"]
+    req["SO3Quat/kin_right"] = ["exact-zero-scalar"]
     return {
         "cells": cells,
         "rule": RULE,
